@@ -22,7 +22,9 @@ SL == <<47>>
 \* C09 (3): segment alphabet covering dots, escaped dots, escaped slashes, empty segments,
 \* bad escapes, the literal '+', sub-delims and needless escapes
 PathSigma == << B("a"), B("."), B(".."), B("%2E"), B("%2e%2E"), B(".%2e"), <<>>, B("%2F"),
-                B("%zz"), B("%4"), B("+"), B("*"), B("~"), B("%7e"), B("a%41") >>
+                B("%zz"), B("%4"), B("+"), B("*"), B("~"), B("%7e"), B("a%41"),
+                \* raw characters above U+00FF whose low byte looks like an unreserved ASCII character (U+0141 'A', U+4E2D '-', U+1234 '4')
+                <<197, 129>> \o B("ukasz"), <<228, 184, 173>>, B("x") \o <<225, 136, 180>> >>
 
 \* C09 (1): every byte in every spelling
 Utf8Lit(b) == IF b < 128 THEN <<b>> ELSE <<192 + (b \div 64), 128 + (b % 64)>>
@@ -40,6 +42,7 @@ PathContext(sp, k) == CASE k = 1 -> SL \o sp
 QNames  == << B("a"), B("a1"), B("a-"), B("a."), B("a%3D"), B("%61"), B("A"), <<>>,
               B("X-Amz-Signature"), B("X%2DAmz-Signature") >>
 QValues == << <<>>, B("1"), B("2"), B("%20"), B("+"), B("b=c"), B("%zz") >>
+QWide == << <<197, 129>> \o B("=") \o <<228, 184, 173>>, B("k=") \o <<225, 136, 180>> \o B("4"), <<228, 184, 173>> >>
 \* component k of 1..80: name=value for 70 combinations, bare name for 10
 QComp(k) == IF k <= 70 THEN QNames[((k - 1) \div 7) + 1] \o <<61>> \o QValues[((k - 1) % 7) + 1]
             ELSE QNames[k - 70]
@@ -119,6 +122,7 @@ Dim(k) ==
       [] Family = "path_escapes" -> IF k <= 4 THEN <<128, 128, 2, 2>>[k] ELSE 0
       [] Family = "path_trunc"   -> IF k <= 3 THEN <<128, 9, 2>>[k] ELSE 0
       [] Family = "query_trunc"  -> IF k <= 2 THEN <<128, 6>>[k] ELSE 0
+      [] Family = "query_wide"   -> IF k <= 3 THEN <<Len(QWide) + 2, Len(QWide) + 2, 2>>[k] ELSE 0
       [] Family = "elem_bytes"   -> IF k <= 4 THEN <<256, 5, 2, 2>>[k] ELSE 0
       [] Family = "query_lists"  -> IF k <= Bound THEN 80 ELSE 0
       [] Family = "query_ampamp" -> IF k = 1 THEN 3 ELSE IF k <= Bound + 1 THEN 80 ELSE 0
@@ -208,6 +212,10 @@ Case ==
                      [] idx[2] = 7 -> SL \o <<37, 195, 169, x>>
                      [] idx[2] = 8 -> SL \o <<37, 226, 130, 172>> \o SL \o <<x>>
                      [] idx[2] = 9 -> SL \o B("a") \o <<37, x, 240, 159, 152, 128>> \o SL \o B("b")]
+      [] Family = "query_wide" ->
+            \* raw multi-byte characters (above U+00FF) in names and values, next to ordinary components
+            LET comp(i) == IF i <= Len(QWide) THEN QWide[i] ELSE IF i = Len(QWide) + 1 THEN B("a=1") ELSE B("z")
+            IN [op |-> "query", q |-> IF idx[3] = 1 THEN comp(idx[1]) \o <<38>> \o comp(idx[2]) ELSE comp(idx[1])]
       [] Family = "query_trunc" ->
             LET x == idx[1] - 1 IN
             [op |-> "query",
